@@ -67,6 +67,17 @@ func concJobs(tier string) []Job {
 // racePass runs cmd/vrace (built with -race from the working tree's uninstrumented package by vcheck):
 // the same two-caller programs as real goroutines. Sampling, supplementary: it can only add reports.
 func racePass(tier string) (map[string]any, []Violation, []string) {
+	return racePassMode("programs", "C07", tier)
+}
+
+// racePassMulti: several Watchers at work at once, each used only by its own reader and consumer - what the race
+// detector reports there, and any entry name a Watcher delivers that was never created in its directories, is
+// something shared between Watchers (C14). Supplementary like racePass.
+func racePassMulti(tier string) (map[string]any, []Violation, []string) {
+	return racePassMode("multi", "C14", tier)
+}
+
+func racePassMode(mode, prop, tier string) (map[string]any, []Violation, []string) {
 	bin := os.Getenv("VRACE_BIN")
 	cov := map[string]any{}
 	if bin == "" {
@@ -85,7 +96,13 @@ func racePass(tier string) (map[string]any, []Violation, []string) {
 	if tier == "thorough" {
 		reps = "27"
 	}
-	cmd := exec.Command(bin, "-reps", reps)
+	if mode == "multi" {
+		reps = "5"
+		if tier == "thorough" {
+			reps = "100"
+		}
+	}
+	cmd := exec.Command(bin, "-mode", mode, "-reps", reps)
 	cmd.Env = append(os.Environ(), "GORACE=log_path="+filepath.Join(dir, "race")+" exitcode=66 halt_on_error=0")
 	out, rerr := cmd.CombinedOutput()
 	reports := parseRaceLogs(dir)
@@ -93,8 +110,8 @@ func racePass(tier string) (map[string]any, []Violation, []string) {
 	if i := strings.LastIndex(summary, "vrace:"); i >= 0 {
 		summary = summary[i:]
 	}
-	cov["free_running_race_pass"] = map[string]any{"note": "sampling, supplementary to the exhaustive exploration; not part of the coverage claim", "result": summary, "race_reports": len(reports)}
-	if rerr != nil && len(reports) == 0 {
+	cov["free_running_race_pass"] = map[string]any{"mode": mode, "note": "sampling, supplementary to the exhaustive exploration; not part of the coverage claim", "result": summary, "race_reports": len(reports)}
+	if rerr != nil && len(reports) == 0 && !strings.Contains(string(out), "WRONG-NAME:") {
 		if ee, ok := rerr.(*exec.ExitError); !ok || ee.ExitCode() != 66 {
 			// the pass itself broke (e.g. the changed tree panics when used by real goroutines): say so, decide nothing
 			cov["free_running_race_pass"] = map[string]any{"note": "the pass did not complete; nothing is concluded from it", "error": rerr.Error(), "output_tail": tailStr(string(out), 600)}
@@ -105,11 +122,23 @@ func racePass(tier string) (map[string]any, []Violation, []string) {
 	seen := map[string]bool{}
 	for _, r := range reports {
 		sig := "data race (free-running pass): " + raceSig(r)
+		if mode == "multi" {
+			sig = "data race between Watchers (free-running pass): " + raceSig(r)
+		}
 		if seen[sig] {
 			continue
 		}
 		seen[sig] = true
-		vs = append(vs, Violation{Property: "C07", Scenario: "race/free-running", Signature: sig, Detail: tailStr(r, 3000)})
+		vs = append(vs, Violation{Property: prop, Scenario: "race/" + mode, Signature: sig, Detail: tailStr(r, 3000)})
+	}
+	if mode == "multi" && strings.Contains(string(out), "WRONG-NAME:") {
+		var lines []string
+		for _, l := range strings.Split(string(out), "\n") {
+			if strings.HasPrefix(l, "WRONG-NAME:") {
+				lines = append(lines, l)
+			}
+		}
+		vs = append(vs, Violation{Property: prop, Scenario: "race/" + mode, Signature: "with other Watchers at work a Watcher delivers entry names that were never created in its directories (free-running pass)", Detail: strings.Join(lines, "\n")})
 	}
 	return cov, vs, nil
 }
@@ -160,6 +189,10 @@ func raceSig(report string) string {
 }
 
 func raceReplay(v *Violation) int {
+	mode := strings.TrimPrefix(v.Scenario, "race/")
+	if mode != "multi" {
+		mode = "programs"
+	}
 	bin := os.Getenv("VRACE_BIN")
 	if bin == "" {
 		fmt.Println("replay: no race-enabled build available")
@@ -167,15 +200,23 @@ func raceReplay(v *Violation) int {
 	}
 	dir, _ := os.MkdirTemp("", "vracelog-")
 	defer os.RemoveAll(dir)
-	cmd := exec.Command(bin, "-reps", "27")
+	cmd := exec.Command(bin, "-mode", mode, "-reps", "27")
 	cmd.Env = append(os.Environ(), "GORACE=log_path="+filepath.Join(dir, "race")+" exitcode=66 halt_on_error=0")
-	cmd.CombinedOutput()
+	out, _ := cmd.CombinedOutput()
+	if strings.Contains(v.Signature, "entry names that were never created") && strings.Contains(string(out), "WRONG-NAME:") {
+		fmt.Println(tailStr(string(out), 2000))
+		fmt.Printf("VIOLATION property=%s replay=(free-running pass re-run)\n", v.Property)
+		return 1
+	}
 	for _, r := range parseRaceLogs(dir) {
 		sig := "data race (free-running pass): " + raceSig(r)
-		fmt.Printf("violation: property=C07 signature=%q\n", sig)
+		if mode == "multi" {
+			sig = "data race between Watchers (free-running pass): " + raceSig(r)
+		}
+		fmt.Printf("violation: property=%s signature=%q\n", v.Property, sig)
 		if sig == v.Signature {
 			fmt.Println(tailStr(r, 3000))
-			fmt.Println("VIOLATION property=C07 replay=(free-running pass re-run)")
+			fmt.Printf("VIOLATION property=%s replay=(free-running pass re-run)\n", v.Property)
 			return 1
 		}
 	}
@@ -185,6 +226,7 @@ func raceReplay(v *Violation) int {
 
 func init() {
 	DirectReplays["C07"] = raceReplay
+	DirectReplays["C14"] = raceReplay
 	Checks["C07"] = &CheckDef{Prop: "C07", Jobs: concJobs, Side: racePass,
 		Rule:      "E1: every schedule up to the preemption bound of closed programs {initial watch set} x {two API threads, one or two calls each from Add/Remove/WatchList/Close over paths forced to collide: one directory in two spellings, a file and its symlink} x {a filesystem thread deleting, recreating, renaming the file or streaming events into the directory}, on the instrumented real code with the reader thread; a state is one maximal execution, a transition one scheduler step",
 		Technique: "stateless model checking (preemption-bounded schedule enumeration of the real code) with, per execution, lockset assertions on every access to the guarded tables, panic/deadlock detection, and a linearizability check of the recorded call/return history against a nondeterministic sequential watch-set model (porcupine v1.3.0)",
